@@ -63,8 +63,16 @@ class SysRun:
       # wait until no other thread can run at this instant (everything posted so far has been digested)
       sc, mevt = self.sched, self.sched.me()
       sc.point("settle", "", (), enabled=lambda: all(
-        vt is mevt or vt.state == "done" or vt.pending[0] == "settle" or not vt.is_enabled() for vt in sc.threads))
+        vt is mevt or vt.state == "done" or vt.pending[0] == "settle" or (not vt.is_enabled() and not getattr(vt, "stalled", False)) for vt in sc.threads))
       self.emit("settle", who)
+      return
+    if k == "wait_started":
+      # a driver that must not call stop() on an object whose start_at has not returned yet
+      self.sched.point("wait_started", "", (op[1],), enabled=lambda: op[1] in self.__dict__.setdefault("started_names", set()))
+      return
+    if k == "wait_pubs":
+      # a driver that acts one moment after the n-th publication has been handed to the fabric (wherever a slow thread has pushed that moment)
+      self.sched.point("wait_pubs", "", (op[1],), enabled=lambda: self.__dict__.get("npub", 0) >= op[1])
       return
     if k in ("fstart", "fstop"):
       self.emit("call", k, "", who)
@@ -76,15 +84,18 @@ class SysRun:
     if k == "start":
       self.emit("call", "start", name, who)
       ao.start_at(self.scripts[name].fn[1])
+      self.__dict__.setdefault("started_names", set()).add(name)
       self.emit("ret", "start", name, who)
     elif k == "sub":
       self.emit("call", "sub", name, op[2], op[3], who)
-      ao.subscribe(Event(signal=op[2]), queue_type=op[3]) if op[3] != "default" else ao.subscribe(Event(signal=op[2]))
+      # the kind is a string built at run time (as if read from a configuration): equal to 'fifo'/'lifo', not the same object as a literal
+      ao.subscribe(Event(signal=op[2]), queue_type="".join(list(op[3]))) if op[3] != "default" else ao.subscribe(Event(signal=op[2]))
       self.emit("ret", "sub", name, op[2], "fifo" if op[3] == "default" else op[3], who)
     elif k == "pub":
       e = self.event(op[2])
       self.emit("call", "pub", name, op[2], e.payload, op[3], who)
       ao.publish(e, priority=op[3])
+      self.npub = self.__dict__.get("npub", 0) + 1
       self.emit("ret", "pub", name, op[2], e.payload, op[3], who)
     elif k == "post":
       e = self.event(op[3])
